@@ -302,3 +302,40 @@ def gen_option_groups(rng: random.Random) -> Dict[str, Any]:
                        "features": {f"c{i}": {"inputs": ins, "c0": i, "coefs": [rng.choice([1, 2]) for _ in ins]}}})
         req.append({"name": f"c{i}", "opt": {"split": vals[i % 2]}})
     return {"groups": groups, "request": req}
+
+
+def gen_two_uploads(rng: random.Random, x: Optional[str] = None, y: Optional[str] = None, shape: Optional[str] = None,
+                    slow: Optional[int] = None) -> Dict[str, Any]:
+    """ONE compute-framework object that has to PUBLISH ITS TABLE TWICE (MULTIPROCESSING: two uploads under one Flight key, a reader in
+    another worker process behind each of them): a root R on framework X is the right side of join 1 (left: the root L1 on framework
+    Y), and the group D derived from R on framework X - hence computed on R's object - is read by another worker as well:
+      shape "join": D is the right side of join 2 (left: the root L2 on Y; index column k of R's table),
+      shape "tfs":  D is the input of a consumer on a framework Y != X (a transform step downloads the table of R's object).
+    Consumers M = f(l1, r) and T = g(l2, d) resp. g(d) on Y are requested.  The second reader needs the column d, which exists only in
+    the table uploaded AFTER D's calculation (Model/MpStore.v: the store is never staler than the last finished uploading step).
+    `slow` (ms) delays L2 / T's source so that the second reader starts well after D's step ended."""
+    x = x or rng.choice(CFWS)
+    y = y or rng.choice(CFWS)
+    shape = shape or ("tfs" if (x != y and rng.random() < 0.4) else "join")
+    if shape == "tfs" and x == y:
+        y = rng.choice([c for c in CFWS if c != x])
+    n = 3
+    keys = [1, 2, 3]
+    slow = rng.choice([0, 150]) if slow is None else slow
+    groups: List[Dict[str, Any]] = [
+        {"name": "L1", "kind": "root", "cfw": y, "cols": {"l1": [rng.randrange(0, 9) for _ in range(n)], "k": keys}},
+        {"name": "R", "kind": "root", "cfw": x, "cols": {"r": [rng.randrange(0, 9) for _ in range(n)], "k": keys}},
+        {"name": "D", "kind": "derived", "cfw": x, "features": {"d": {"inputs": ["r"], "c0": rng.randrange(0, 4), "coefs": [rng.choice([2, 3, 7])]}}},
+        {"name": "M", "kind": "derived", "cfw": y, "features": {"m": {"inputs": ["l1", "r"], "c0": 0, "coefs": [10, 1]}}}]
+    links = [{"jt": "INNER", "l": "L1", "r": "R", "li": ["k"], "ri": ["k"]}]
+    if shape == "join":
+        l2: Dict[str, Any] = {"name": "L2", "kind": "root", "cfw": y, "cols": {"l2": [rng.randrange(0, 9) for _ in range(n)], "k": keys}}
+        if slow:
+            l2["delay_ms"] = slow
+        groups.append(l2)
+        groups.append({"name": "T", "kind": "derived", "cfw": y, "features": {"t": {"inputs": ["l2", "d"], "c0": 0, "coefs": [1000, 1]}}})
+        links.append({"jt": "INNER", "l": "L2", "r": "D", "li": ["k"], "ri": ["k"]})
+    else:
+        t: Dict[str, Any] = {"name": "T", "kind": "derived", "cfw": y, "features": {"t": {"inputs": ["d"], "c0": 1, "coefs": [5]}}}
+        groups.append(t)
+    return {"groups": groups, "request": ["m", "t"], "links": links, "family": "two_uploads", "shape": shape, "x": x, "y": y}
